@@ -270,6 +270,102 @@ fn ffi_case(out: &mut Out, nq: usize, nc: usize, shots: usize, ops: &[Op])
     out.case(&req, &ans);
 }
 
+/// Histories on ONE `Circuit` object (created through the C interface, so that the Rust views and `circuit_histogram` look at
+/// the same object): execute, then a mix of reexecute (rewrites the same register in place) and execute with the same or
+/// another shot count.  After EVERY run all four views - histogram(), histogram_vec(), histogram_string() and the C
+/// interface's circuit_histogram - are queried in a generated ORDER, some of them twice (so that the string view has been
+/// asked for before a reexecute and is asked for again after it).  Every view must be a view of the N words the register
+/// holds after THAT run: two `views` requests per run (string segment from histogram_string() / from the C interface).
+/// The circuits flip qubits with X, so a reexecute (which continues from the final state) yields other words than the
+/// run before: x(0); measure(0,2); measure(1,0) gives 0b100, then 0b000.
+fn history_case(out: &mut Out, rng: &mut SplitMix64, vector: bool, fixed: bool)
+{
+    use q1tsim::ffi;
+    use rand_core::SeedableRng;
+    #[repr(C)] #[derive(Clone, Copy)]
+    struct RawResult { data: *const std::os::raw::c_void, length: usize, size: usize, restype: u32 }
+    #[repr(C)] struct RawHistElem { key: *const std::os::raw::c_char, count: usize }
+    fn raw(r: ffi::CResult) -> RawResult { unsafe { std::mem::transmute::<ffi::CResult, RawResult>(r) } }
+    fn unraw(r: RawResult) -> ffi::CResult { unsafe { std::mem::transmute::<RawResult, ffi::CResult>(r) } }
+    let (nq, nc, ops): (usize, usize, Vec<Op>) = if fixed
+    {
+        let mut o = vec![Op::Gate("X", vec![0]), Op::Measure(0, 2), Op::Measure(1, 0)];
+        if vector { o.insert(0, Op::Gate("S", vec![1])); }
+        (2, 3, o)
+    }
+    else
+    {
+        let nq = 1 + rng.below(3) as usize;
+        let nc = nq + rng.below(4) as usize;
+        let mut o = vec![];
+        for q in 0..nq { match rng.below(4) { 0 | 1 => o.push(Op::Gate("X", vec![q])), 2 => o.push(Op::H(q)), _ => {} } }
+        if !o.iter().any(|op| matches!(op, Op::Gate("X", _))) { o.push(Op::Gate("X", vec![0])); }
+        let cb = cbit_list(rng, nq, nc, true);
+        if rng.coin() { o.push(Op::MeasureAll(cb)); } else { for q in 0..nq { o.push(Op::Measure(q, cb[q])); } }
+        (nq, nc, o)
+    };
+    let ptr = ffi::circuit_new(nq, nc);
+    let c: &mut q1tsim::circuit::Circuit = unsafe { &mut *ptr };
+    for op in ops.iter() { if add_op(c, op).is_err() { ffi::circuit_free(ptr); return; } }
+    let nruns = if fixed { 3 } else { 3 + rng.below(3) as usize };
+    let mut n = *rng.pick(&[1usize, 3, 7, 16]);
+    let mut hist: Vec<String> = vec![];
+    for k in 0..nruns
+    {
+        let mut r = rand::rngs::StdRng::seed_from_u64(rng.next());
+        let re = k > 0 && (fixed || rng.below(3) != 0);
+        let res = if re { hist.push("reexecute".to_string()); std::panic::catch_unwind(std::panic::AssertUnwindSafe(|| c.reexecute_with_rng(&mut r))) }
+        else
+        {
+            if k > 0 && rng.coin() { n = *rng.pick(&[1usize, 3, 7, 16, 40]); }
+            hist.push(format!("execute({})", n));
+            let repr = if vector { q1tsim::circuit::QuStateRepr::vector(nq, n) } else { q1tsim::circuit::QuStateRepr::stabilizer(nq, n) };
+            std::panic::catch_unwind(std::panic::AssertUnwindSafe(|| c.execute_with(n, &mut r, repr)))
+        };
+        if !matches!(res, Ok(Ok(()))) { out.case(&format!("history-unexpected-failure {} | {}", ops_text(&ops), hist.join(",")), "harness-error"); break; }
+        let cs: Vec<u64> = c.cstate().map(|a| a.to_vec()).unwrap_or_default();
+        // the order of the queries: a permutation of the four views, plus now and then a second query of the string views
+        let mut order = vec!['h', 'v', 's', 'f'];
+        rng.shuffle(&mut order);
+        if rng.coin() { let i = rng.below(order.len() as u64 + 1) as usize; order.insert(i, *rng.pick(&['s', 'f'])); }
+        // the last run of a history is sometimes not queried at all for the string views before... (every run is queried: the
+        // cache, if any, is always warm before the next run)
+        let (mut h, mut v, mut sv, mut fv): (Option<String>, Option<String>, Option<String>, Option<String>) = (None, None, None, None);
+        let mut unstable = false;
+        for q in order.iter()
+        {
+            match q
+            {
+                'h' => { h = Some(match c.histogram() { Ok(m) => { let mut l: Vec<(u64, usize)> = m.into_iter().collect(); l.sort();
+                    format!("h {}", l.iter().map(|(k, n)| format!("{}:{}", k, n)).collect::<Vec<_>>().join(" ")) }, Err(e) => format!("h err {}", err_text(&e)) }); },
+                'v' => { v = Some(if nc > VEC_MAX { "v -".to_string() } else { match c.histogram_vec() { Ok(x) => format!("v {}", js(&x)), Err(e) => format!("v err {}", err_text(&e)) } }); },
+                's' => { let t = match c.histogram_string() { Ok(m) => { let mut l: Vec<(String, usize)> = m.into_iter().collect(); l.sort();
+                    format!("s {}", l.iter().map(|(k, n)| format!("{}:{}", k, n)).collect::<Vec<_>>().join(" ")) }, Err(e) => format!("s err {}", err_text(&e)) };
+                    if let Some(old) = &sv { if *old != t { unstable = true; } } sv = Some(t); },
+                _ => {
+                    let rr = raw(ffi::circuit_histogram(ptr));
+                    let t = if rr.restype == 3
+                    {
+                        let elems: &[RawHistElem] = if rr.length == 0 { &[] } else { unsafe { std::slice::from_raw_parts(rr.data as *const RawHistElem, rr.length) } };
+                        let mut l: Vec<(String, usize)> = elems.iter().map(|e| (unsafe { std::ffi::CStr::from_ptr(e.key) }.to_string_lossy().into_owned(), e.count)).collect();
+                        l.sort();
+                        format!("s {}", l.iter().map(|(k, n)| format!("{}:{}", k, n)).collect::<Vec<_>>().join(" "))
+                    } else { "s err c-interface".to_string() };
+                    ffi::result_free(unraw(rr));
+                    if let Some(old) = &fv { if *old != t { unstable = true; } } fv = Some(t);
+                }
+            }
+        }
+        let tail = format!("{} {} {} | runs {} | queries {}{}", if vector { "v" } else { "s" }, nq, ops_text(&ops).replace(" | ", " ; "), hist.join(","),
+            order.iter().map(|c| c.to_string()).collect::<Vec<_>>().join(","), if unstable { " UNSTABLE" } else { "" });
+        let (h, v) = (h.unwrap(), v.unwrap());
+        out.case(&format!("views {} | {} | history {}", nc, ju(&cs), tail), &format!("{} | {} | {}{}", h, v, sv.unwrap(), if unstable { " | two-queries-of-one-view-differ" } else { "" }));
+        out.case(&format!("views {} | {} | history-c-interface {}", nc, ju(&cs), tail), &format!("{} | {} | {}", h, v, fv.unwrap()));
+        out.case(&format!("nwords {} {} {}", k, n, hist.join(",").replace(' ', "")), &format!("ok {}", cs.len()));
+    }
+    ffi::circuit_free(ptr);
+}
+
 fn main()
 {
     let dir = std::env::args().nth(1).expect("usage: c08 <outdir>");
@@ -346,6 +442,8 @@ fn main()
     }
     for k in 0..(if thorough() { 4000 } else { 800 }) { split_case(&mut out, &mut rng, k % 2 == 0); }
     for k in 0..(if thorough() { 1000 } else { 200 }) { rerun_case(&mut out, &mut rng, k % 2 == 0); }
+    for &vector in &[true, false] { history_case(&mut out, &mut rng, vector, true); }
+    for k in 0..(if thorough() { 1500 } else { 300 }) { history_case(&mut out, &mut rng, k % 2 == 0, false); }
     let n = out.finish();
     eprintln!("c08: {} cases", n);
 }
